@@ -82,7 +82,8 @@ ObsOKFor(g, obs) ==
     /\ Req(<<"obs-nodal", IF ~IsEmpty(g) /\ g.orph THEN "after-a-child-was-promoted-before-a-parent" ELSE "every-promotion-had-its-parents">>,
            (Has(obs, "nodal") /\ Has(obs.nodal, "evaluate") /\ ~IsEmpty(g) /\ NodalRequired(g))
             => (obs.nodal.evaluate /\ obs.nodal.batch /\ obs.nodal.fast))
-    /\ Req(<<"obs-routes", IF Has(obs, "routes") THEN {f \in DOMAIN obs.routes : obs.routes[f] = FALSE} ELSE {}>>,
+    /\ Req(<<"obs-routes", IF Has(obs, "routes") THEN {f \in DOMAIN obs.routes : obs.routes[f] = FALSE} ELSE {},
+             IF ~IsEmpty(g) /\ g.orph THEN "after-a-child-was-promoted-before-a-parent" ELSE "every-promotion-had-its-parents">>,
            Has(obs, "routes") => IF ~IsEmpty(g) /\ g.rem THEN AllTrue([f \in (DOMAIN obs.routes) \ ValueRoutes |-> obs.routes[f]]) ELSE AllTrue(obs.routes))
     /\ Req(<<"obs-rt", IF Has(obs, "rt") THEN {f \in DOMAIN obs.rt : obs.rt[f] = FALSE} ELSE {}>>, Has(obs, "rt") => AllTrue(obs.rt))
     /\ (Has(obs, "exact") /\ ~IsEmpty(g)) => ExactOK(g, obs.exact)
